@@ -137,6 +137,17 @@ static std::vector<std::string> versionAlphabet(bool small) {
     for (const char* a : {"0", "1", "2", "10"})
         for (const char* b : {"0", "1", "999", "1000", "1001", "65536", "2147483647"})
             for (const char* c : {"0", "1", "999", "1000", "1001", "65536", "2147483647"}) out.insert(std::string(a) + "." + b + "." + c);
+    // leading zeros and radix prefixes: components are decimal whatever they start with ("010" is ten, "08" is eight, "0x10" is 0 followed
+    // by an ignored suffix); a parser that lets the C library guess the base reads them as octal / hex
+    for (const char* pre : {"", "v"})
+        for (const char* z : {"010", "08", "09", "0010", "00", "0x10", "0X1F", "0b1", "007"}) {
+            out.insert(std::string(pre) + z);
+            out.insert(std::string(pre) + z + ".1");
+            out.insert(std::string(pre) + "1." + z);
+            out.insert(std::string(pre) + "1." + z + ".0");
+            out.insert(std::string(pre) + "1.0." + z);
+            out.insert(std::string(pre) + z + "." + z + "." + z);
+        }
     for (const char* g : {"", "v", "abc", ".1", "-1", "1..2", " 1", "v.", "vv1", "1.2.3.4", "01.002.0003", "dev", "unknown", "1.-2", "+1", "nightly", "latest"}) out.insert(g);
     return std::vector<std::string>(out.begin(), out.end());
 }
